@@ -25,8 +25,8 @@ func init() {
 		ID:    "C15",
 		Level: "exploration",
 		Rule: "cases = (codec, direction, source/destination kind, content, reader/writer script, closing option). " +
-			"(a) sweep: for every codec x direction x documented kind, a fixed content with a stream fault at EVERY byte offset 0..len (error alone / error together with the last bytes; writer faults one-shot / sticky), closing option on and off; " +
-			"(b) seeded: kinds (documented ones, and nil / typed-nil / non-pointer / foreign / pre-populated destinations) x contents (empty, ASCII, whitespace-edged, all 256 byte values, invalid UTF-8, buffer-boundary sizes, 64 KiB..1 MiB, JSON number literals beyond float64) x scripts (whole, 1-byte, random chunks, runs of <= 50 zero-length reads, data together with EOF, fault at a random offset). " +
+			"(a) sweep: for every codec x direction x documented kind, a fixed content with a stream fault at EVERY byte offset 0..len (error alone / error together with the last bytes; writer faults one-shot / sticky), closing option on and off, each fault reporting in turn the harness's own sentinel and every error VALUE of a fixed vocabulary (io.ErrUnexpectedEOF, errors wrapping io.ErrUnexpectedEOF and io.EOF, an error whose text is 'EOF', io.ErrClosedPipe, io.ErrShortWrite, io.ErrShortBuffer, io.ErrNoProgress, context.Canceled, context.DeadlineExceeded, os.ErrDeadlineExceeded, os.ErrClosed, a net.Error with Timeout() true, bare and wrapped; quick tier: three of them per offset, in rotation, for the JSON/XML/YAML round trips); " +
+			"(b) seeded: kinds (documented ones, and nil / typed-nil / non-pointer / foreign / pre-populated destinations) x contents (empty, ASCII, whitespace-edged, all 256 byte values, invalid UTF-8, buffer-boundary sizes, 64 KiB..1 MiB, JSON number literals beyond float64) x scripts (whole, 1-byte, random chunks, runs of <= 50 zero-length reads, data together with EOF, fault at a random offset, reporting an error value drawn from the same vocabulary). " +
 			"(c) refusal paths, in the sweep and seeded: no reader / no writer at all for the byte-stream and text codecs, sources no producer documents (nil, typed-nil pointers, scalars, maps, channels, functions, arrays, structs and slices JSON refuses) into every writer kind, on fresh and on used producer instances; " +
 			"(d) 2..8 goroutines calling ONE codec instance at the same time, each with its own content (up to 64 KiB), streams and destination, the scripted streams yielding the processor before every read and write. " +
 			"(e) sources that implement SEVERAL of the interfaces the byte-stream and text producers look for (io.WriterTo, io.Reader, io.ReadCloser, encoding.BinaryMarshaler, encoding.TextMarshaler, error, fmt.Stringer): every subset of them as a struct value and as a pointer, each interface with a rendering of its own, and time.Time, *time.Time, *big.Float, *big.Int, *url.URL; produced, then consumed into the matching destination (a pointer to the same type, whose UnmarshalBinary / UnmarshalText accepts its own marshaler's form only; else *[]byte / *string), swept and seeded with chunked and faulty streams and every writer kind. " +
@@ -49,6 +49,7 @@ func init() {
 			"a fault delivered after the decoder already holds a complete document may be ignored by JSON/XML/YAML consumers: only 'nil error with a value different from the full one' is a shorter success",
 			"struct and slice sources of the byte-stream and text producers: the bytes written must be JSON that decodes to an equal value (only for valid UTF-8 text)",
 			"a source with several of the producers' interfaces: the byte-stream producer owes the rendering of the first interface in the order its doc comment gives (io.WriterTo, io.Reader, encoding.BinaryMarshaler, error, then the kind); the text producer documents no order, and the round trip decides: a value that has MarshalText must come back equal from TextConsumer in a pointer to its own type (UnmarshalText is the inverse of MarshalText, not of String or Error); a value without MarshalText that is an error and a Stringer may be written as either; a value with none of the codec's interfaces is a struct (JSON: success and a non-empty output only)",
+			"the error clause is judged the same way for every error value a stream reports: only io.EOF itself, from a reader, is the end of a stream (io.Reader); io.ErrUnexpectedEOF, an error that wraps io.EOF, a time-out ... are failures, and a nil return after one of them was delivered is a shorter success (which error comes back is not judged); a writer never fails with io.EOF itself",
 			"short writes without error (a violation of io.Writer's contract) are not scripted",
 			"a stream (or closable source payload) that is read or written after the codec closed it is a violation whatever the outcome: scripted streams fail once closed, as files and HTTP bodies do",
 			"the byte-stream and text consumers are also driven from a reader without Close and from *bytes.Buffer / *bytes.Reader / *strings.Reader; what they stored must survive the caller overwriting its source buffer, and what a producer wrote must survive the caller overwriting its []byte source",
@@ -444,11 +445,11 @@ func runByteConsume(m *mon.M, c *Case) {
 	if r.errDelivered || destFault {
 		m.Class("fault-delivered")
 		if err == nil {
-			what := "read"
+			what, feat := "read", c.R.errFeat()
 			if !r.errDelivered {
-				what = "destination-write"
+				what, feat = "destination-write", c.O.errFeat()
 			}
-			m.Violate(what+"-error-swallowed/"+c.Codec+"/consume", fmt.Sprintf("%s Consume into %s: the %s error at byte %d was delivered and nil was returned (stored %s)", c.Codec, c.Kind, what, c.R.ErrAt, short(get(d))), c)
+			m.Violate(what+"-error-swallowed/"+c.Codec+"/consume"+feat, fmt.Sprintf("%s Consume into %s: the %s error at byte %d was delivered and nil was returned (stored %s)", c.Codec, c.Kind, what, c.R.ErrAt, short(get(d))), c)
 		}
 		return
 	}
@@ -575,7 +576,7 @@ func runBigConsume(m *mon.M, c *Case) {
 	if r.errDelivered {
 		m.Class("fault-delivered")
 		if err == nil {
-			m.Violate("read-error-swallowed/"+c.Codec+"/consume", fmt.Sprintf("%s Consume into %s: the read error at byte %d of %d was delivered and nil was returned (%d bytes stored)", c.Codec, c.Kind, c.R.ErrAt, total, len(get(d))), c)
+			m.Violate("read-error-swallowed/"+c.Codec+"/consume"+c.R.errFeat(), fmt.Sprintf("%s Consume into %s: the read error at byte %d of %d was delivered and nil was returned (%d bytes stored)", c.Codec, c.Kind, c.R.ErrAt, total, len(get(d))), c)
 		}
 		return
 	}
@@ -714,11 +715,11 @@ func runByteProduce(m *mon.M, c *Case) {
 	if w.errDelivered || srcFault {
 		m.Class("fault-delivered")
 		if err == nil {
-			what := "write"
+			what, feat := "write", c.W.errFeat()
 			if !w.errDelivered {
-				what = "source-read"
+				what, feat = "source-read", c.O.errFeat()
 			}
-			m.Violate(what+"-error-swallowed/"+c.Codec+"/produce", fmt.Sprintf("%s Produce from %s: the %s error was delivered and nil was returned (written %s)", c.Codec, c.Kind, what, short(w.buf)), c)
+			m.Violate(what+"-error-swallowed/"+c.Codec+"/produce"+feat, fmt.Sprintf("%s Produce from %s: the %s error was delivered and nil was returned (written %s)", c.Codec, c.Kind, what, short(w.buf)), c)
 		}
 		return
 	}
@@ -889,7 +890,7 @@ func runRoundTrip(m *mon.M, c *Case) {
 	if w.errDelivered {
 		m.Class("fault-delivered")
 		if err == nil {
-			m.Violate("write-error-swallowed/"+c.Codec+"/produce", fmt.Sprintf("%s Produce of %s: the write error at byte %d was delivered and nil was returned", c.Codec, c.Kind, c.W.ErrAt), c)
+			m.Violate("write-error-swallowed/"+c.Codec+"/produce"+c.W.errFeat(), fmt.Sprintf("%s Produce of %s: the write error at byte %d was delivered and nil was returned", c.Codec, c.Kind, c.W.ErrAt), c)
 		}
 		return
 	}
@@ -922,7 +923,7 @@ func runRoundTrip(m *mon.M, c *Case) {
 	if r.errDelivered {
 		m.Class("fault-delivered")
 		if err == nil && !equal {
-			m.Violate("read-error-swallowed/"+c.Codec+"/consume", fmt.Sprintf("%s Consume of %s: read error at byte %d of %d delivered, nil returned, value differs from the full one", c.Codec, c.Kind, c.R.ErrAt, len(encoded)), c)
+			m.Violate("read-error-swallowed/"+c.Codec+"/consume"+c.R.errFeat(), fmt.Sprintf("%s Consume of %s: read error at byte %d of %d delivered, nil returned, value differs from the full one", c.Codec, c.Kind, c.R.ErrAt, len(encoded)), c)
 		} else if err == nil {
 			m.Class("fault-after-complete-document")
 		}
